@@ -24,10 +24,18 @@ class RaiseClause:
         self.modifies = modifies
 
 
+class Lemma:
+    """forall vars. body   -- proved for fresh constants (with optional ground hint terms that feed
+    E-matching), then available as a quantified hypothesis."""
+
+    def __init__(self, label, nvars, body, hints=None):
+        self.label, self.nvars, self.body, self.hints = label, nvars, body, hints
+
+
 class Contract:
     def __init__(self, fq, arg_types=None, requires=(), ensures=(), raises=(), modifies=(), result=None,
                  effects=None, emits=None, loops=None, props=(), setup=None, trusted=False, pure=False,
-                 modular=True, notes=""):
+                 modular=True, notes="", pre_lemmas=()):
         self.fq = fq
         self.arg_types = dict(arg_types or {})
         self.requires = list(requires)  # [(label, fn(o))]
@@ -44,6 +52,7 @@ class Contract:
         self.pure = pure
         self.modular = modular
         self.notes = notes
+        self.pre_lemmas = list(pre_lemmas)
 
     # ------------------------------------------------------------------ used at call sites
     def modifies_list(self, o):
